@@ -145,6 +145,13 @@ func (st *consState) consumerOpts(name string) []kgo.Opt {
 			}
 			m[topicName(i)] = pm
 		}
+		if p.Knob("idle_exact", 0) != 0 {
+			pm := map[int32]kgo.Offset{}
+			for q := int32(0); q < int32(p.Knob("nparts", 1)); q++ {
+				pm[q] = kgo.NewOffset().At(0)
+			}
+			m["idle"] = pm
+		}
 		opts = append(opts, kgo.ConsumePartitions(m))
 	}
 	return opts
@@ -439,6 +446,11 @@ func scenConsume(s *Sim) {
 	for i := 0; i < ntopics; i++ {
 		topics = append(topics, topicName(int64(i)))
 	}
+	if p.Knob("idle_exact", 0) != 0 {
+		// a topic nothing is produced to, consumed from an exact offset: its
+		// cursors stay idle and have never consumed a record of any epoch
+		topics = append(topics, "idle")
+	}
 	kopts := []kfake.Opt{kfake.SeedTopics(nparts, topics...)}
 	cfgs := map[string]string{}
 	if v := p.Knob("session_slots", 0); v > 0 {
@@ -542,6 +554,19 @@ func scenConsume(s *Sim) {
 					tmu.Unlock()
 					s.Count("env.delete_topic", 1)
 					s.Logf("ENV delete topic %s", ev.S)
+				}
+			case "bump_epoch":
+				// leadership is re-elected onto the same broker: the leader
+				// epoch moves, the leader does not
+				t := ev.S
+				if t == "" {
+					t = topicName(ev.A)
+				}
+				if cur := s.Cluster.LeaderFor(t, int32(ev.B)); cur >= 0 {
+					if err := s.Cluster.MoveTopicPartition(t, int32(ev.B), cur); err == nil {
+						s.Count("env.bump_epoch", 1)
+						s.Logf("ENV epoch bump %s/%d (leader stays %d)", t, ev.B, cur)
+					}
 				}
 			case "followers":
 				var f []int32
